@@ -205,13 +205,15 @@ def run_case(case, st=None):
         for q in doc["quads"]:
             g = dec(q[3]) if (quadfmt and q[3]) else None
             if fmt == "trix" and case["target"] == "dataset" and g is None: g = URIRef("http://example.org/gdoc")
-            D.add((dec(q[0]), dec(q[1]), dec(q[2]), g))
+            o_ = dec(q[2])
+            if fmt == "hext" and isinstance(o_, Literal) and o_.datatype is None and not o_.language:
+                o_ = Literal(str(o_), datatype=URIRef("http://www.w3.org/2001/XMLSchema#string"))  # that is what the HexTuples row says
+            D.add((dec(q[0]), dec(q[1]), o_, g))
         key = (lambda t: hkey(lkey(t))) if fmt == "hext" else lkey
         # ground statements of the document that were already there are not "added"
         def isground(q): return not any(isinstance(x, BNode) for x in q if x is not None)
         def kq(q): return tuple(key(x) if x is not None else None for x in q)
-        oldk = {tuple(hkey(k) if fmt == "hext" and k else k for k in q) for q in old} if fmt == "hext" else old
-        expect = [q for q in D if not (isground(q) and kq(q) in oldk)]
+        expect = [q for q in D if not (isground(q) and tuple(lkey(x) if x is not None else None for x in q) in old)]
         added_terms = [tuple(_unkey(k) for k in q) for q in added]
         st["merge"] = st.get("merge", 0) + 1
         r = iso(expect, added_terms, lit_key=key)
